@@ -17,6 +17,34 @@ EXPLANATION = (
     "for every grid, not for sampled ones; numerical equality through numpy's clip/astype is not decided.")
 
 
+def _concat(e):
+    """parts of a string concatenation"""
+    if isinstance(e, tuple) and e and e[0] == 'add':
+        return _concat(e[1]) + _concat(e[2])
+    if isinstance(e, tuple) and len(e) == 2 and e[0] == 'lit' and isinstance(e[1], str):
+        return [e]
+    return [e]
+
+
+def _is_itemsize(x, nbits_written, configs):
+    """x = str(config['nbits'] // 8) (or int(../8)) while NBITS is written as itemsize * 8"""
+    from .. import pq
+    if not (pq.call_named(x, "py.str") and len(x[2]) == 1):
+        return False
+    v = x[2][0]
+    while pq.call_named(v, "py.int") and len(v[2]) == 1:
+        v = v[2][0]
+    if not ((pq.call_named(v, "floordiv") and len(v[2]) == 2) or v[0] == 'div'):
+        return False
+    num_, den = (v[2][0], v[2][1]) if v[0] == 'call' else (v[1], v[2])
+    okn = pq.call_named(num_, "getitem") and num_[2][0] in configs and num_[2][1] in (('sym', "'nbits'"), ('lit', 'nbits'))
+    okd = den in (('num', 8), ('lit', 8)) or (den[0] == 'num' and int(den[1]) == 8)
+    w = nbits_written
+    okw = w is not None and w[0] == 'mul' and any(pq.call_named(t, "attr:itemsize") for t in (w[1], w[2])) and \
+        any(t in (('num', 8), ('lit', 8)) or (t[0] == 'num' and int(t[1]) == 8) for t in (w[1], w[2]))
+    return bool(okn and okd and okw)
+
+
 def str_consts(node):
     return [n.value for n in ast.walk(node) if isinstance(n, ast.Constant) and isinstance(n.value, str)]
 
@@ -59,36 +87,67 @@ def run(rep):
     ginit = mod.func("Grid.__init__")
     rep.unit(f"{rel}: Grid.save / from_stream / load / to_dict / from_dict / clone / clip, Catchment.to_dict / from_dict")
 
-    # ---------------- writer keys -------------------------------------------------------------------------------
-    written = {}        # lower-case key -> (value expr text, format text, line)
-    for n in ast.walk(save):
-        if isinstance(n, ast.Call) and isinstance(n.func, ast.Attribute) and n.func.attr == "write" and n.args:
-            a = n.args[0]
-            if isinstance(a, ast.Call) and isinstance(a.func, ast.Attribute) and a.func.attr == "format" and \
-                    isinstance(a.func.value, ast.Constant) and len(a.args) == 2:
-                fmt = a.func.value.value
-                k, v = a.args
-                keys = []
-                if isinstance(k, ast.Constant):
-                    keys = [k.value]
-                elif isinstance(k, ast.Call) and isinstance(k.func, ast.Attribute) and k.func.attr == "upper":
-                    # attname.upper() inside `for attname in [..]`
-                    loop = n
-                    while loop is not None and not isinstance(loop, ast.For):
-                        loop = getattr(loop, "_parent", None)
-                    if loop is not None and isinstance(loop.iter, (ast.List, ast.Tuple)):
-                        src = k.func.value
-                        items = [const_value(x) for x in loop.iter.elts]
-                        if isinstance(src, ast.Name) and isinstance(loop.target, ast.Name) and src.id == loop.target.id:
-                            keys = items
-                        elif isinstance(src, ast.Name):
-                            # pattr = "parentgrid_" + attr
-                            for st in loop.body:
-                                if isinstance(st, ast.Assign) and isinstance(st.targets[0], ast.Name) and st.targets[0].id == src.id \
-                                        and isinstance(st.value, ast.BinOp) and isinstance(st.value.left, ast.Constant):
-                                    keys = [st.value.left.value + x for x in items]
-                for kk in keys:
-                    written[str(kk).lower()] = (ast.unparse(v), fmt, n.lineno)
+    # ---------------- writer: the header lines, from the evaluated paths of Grid.save -------------------------------------
+    from .. import pq, pfold
+    from ..formula import show as _show
+    import string as _string
+    # module-level literal tables and private helpers take part in the evaluation
+    BASE = {}
+    for n in mod.tree.body:
+        if isinstance(n, ast.Assign) and len(n.targets) == 1 and isinstance(n.targets[0], ast.Name):
+            try:
+                BASE[('sym', n.targets[0].id)] = pfold.lit(ast.literal_eval(n.value))
+            except (ValueError, SyntaxError, TypeError):
+                pass
+    HELPERS = {n.name: n for n in mod.tree.body if isinstance(n, ast.FunctionDef) and n.name.startswith("_")}
+    wpe = pq.PEval()
+    wpe.unroll_const = wpe.merge_ifs = True
+    wpe.b.keep_casts = True
+    wpe.inline = HELPERS
+    wpaths = [p_ for p_ in wpe.run(save) if p_.how in ("end", "return")]
+    if not wpaths:
+        raise AnalysisError(f"{rel}: Grid.save: no completing path")
+
+    def header_line(arg):
+        """(key literal, value expression, value format spec | None) of the text written for one header line"""
+        a_ = pfold.fold(arg, BASE)
+        if pq.call_named(a_, ".format") and len(a_[2]) == 3 and pfold.is_lit(a_[2][0]) and isinstance(a_[2][0][1], str):
+            fmt = a_[2][0][1]
+            try:
+                fields = list(_string.Formatter().parse(fmt))
+            except ValueError:
+                return None
+            if len(fields) >= 2 and fields[0][0] == "" and fields[0][1] == "0" and fields[1][1] == "1" and fields[1][0].strip(" ") == "" and fields[1][0] != "" \
+                    and (len(fields) == 2 or (len(fields) == 3 and fields[2][0] == "\n" and fields[2][1] is None)) and not fields[0][3] and not fields[1][3]:
+                if pfold.is_lit(a_[2][1]) and isinstance(a_[2][1][1], str):
+                    return a_[2][1][1], a_[2][2], fields[1][2] or ""
+        return None
+    scen_lines = []          # per completing path: list of (KEY, value expr, spec, effect conditions, line number)
+    for p_ in wpaths:
+        ls_ = []
+        for e in p_.effects:
+            if e.kind == 'call' and pq.call_named(e.val, ".write") and len(e.val[2]) == 2:
+                hl = header_line(e.val[2][1])
+                if hl is None:
+                    rep.undecided("R13.a", rel, "Grid.save", "header line form", f"written text outside the `KEY value` vocabulary: {_show(e.val[2][1])[:80]}", line=e.line)
+                    continue
+                ls_.append((hl[0], hl[1], hl[2], e.conds, e.line))
+        scen_lines.append((p_, ls_))
+
+    def attr_text(v):
+        if pq.call_named(v, "f:getattr") and len(v[2]) == 2 and v[2][0] == ('sym', 'self') and pfold.is_lit(v[2][1]):
+            return "self." + str(v[2][1][1])
+        if v[0] == 'call' and v[1].startswith("attr:") and v[2] == (('sym', 'self'),):
+            return "self." + v[1][5:]
+        return pfold.text(v)
+    written = {}        # lower-case key -> (value text, value format spec, line)
+    for _p, ls_ in scen_lines:
+        for key, val, spec, _c, ln in ls_:
+            written.setdefault(key.lower(), (attr_text(val), "{1:" + spec + "}" if spec else "{1}", ln))
+    keysets = {tuple(sorted(k for k, *_r in ls_)) for _p, ls_ in scen_lines}
+    rep.check(len(keysets) == 1, "R13.a", rel, "Grid.save", "the same header keys are written for every data type", f"{len(keysets)} different key sets", line=save.lineno)
+    for key in sorted(written):
+        rep.check(key.upper() in {k for _p, ls_ in scen_lines for k, *_r in ls_}, "R13.a", rel, "Grid.save", f"key '{key.upper()}' written in upper case as the reader's lower() expects", "", line=written[key][2])
     rep.floor("header keys written by Grid.save", len(written), 9)
 
     # ---------------- reader: constructor keys and their sources ---------------------------------------------------
@@ -119,7 +178,7 @@ def run(rep):
     expect_attr = {"nbits": None, "pixeltype": None, "byteorder": None, "name": "self.name", "comment": None, "nodata": "self.nodata"}
     for k, (vtxt, fmt, line) in sorted(written.items()):
         if k in ("nrows", "ncols", "xllcorner", "yllcorner", "cellsize"):
-            okv = vtxt in ("attval",) or vtxt == f"self.{k}"
+            okv = vtxt in (f"self.{k}", f"self._{k}")
         elif k in expect_attr and expect_attr[k]:
             okv = vtxt in (expect_attr[k], expect_attr[k].replace("self.", "self._"))
         else:
@@ -130,111 +189,137 @@ def run(rep):
         okf = bool(spec) and all(s == "" for s in spec)
         rep.check(okf, "R13.a", rel, "Grid.save", f"value of '{k.upper()}' written in round-trip form",
                   f"format `{fmt.strip()}` rounds the value: the reloaded georeferencing differs", line=line)
-    # getattr(self, attname) for the looped attributes
-    ga = [n for n in ast.walk(save) if isinstance(n, ast.Assign) and isinstance(n.targets[0], ast.Name) and n.targets[0].id == "attval"]
-    if ga:
-        v = ga[0].value
-        rep.check(isinstance(v, ast.Call) and dotted(v.func) == "getattr" and ast.unparse(v.args[0]) == "self" and
-                  isinstance(v.args[1], ast.Name), "R13.a", rel, "Grid.save", "looped header values are getattr(self, <key>)", ast.unparse(v), line=ga[0].lineno)
+    # ---------------- reader: the parsing loop evaluated on each key the writer emits -------------------------------------
+    rpe = pq.PEval()
+    rpe.unroll_const = rpe.merge_ifs = True
+    rpe.b.keep_casts = True
+    rpe.inline = HELPERS
+    rpaths = rpe.run(fs)
+    lps = [p_ for _t, p_ in getattr(rpe, "loop_paths", [])]
+    hstores = [(p_, e) for p_ in lps for e in p_.effects if e.kind == 'store' and e.target in ("config", "parent_config")]
+    if not hstores:
+        raise AnalysisError(f"{rel}: Grid.from_stream: header parsing loop (stores into config) not found")
+    # the first token of the split line is what the key tests look at
+    toks = pq.find(('tuple', tuple(e.key for _p, e in hstores)), lambda x: pq.call_named(x, "getitem") and len(x[2]) == 2 and x[2][1] == ('num', 0) and
+                   (pq.call_named(x[2][0], ".split")))
+    if not toks:
+        raise AnalysisError(f"{rel}: Grid.from_stream: key token of a header line not recognised")
+    TOK = toks[0]
 
-    # ---------------- reader: type selection evaluated on the writer's keys ---------------------------------------------
-    chain = None
-    for n in ast.walk(fs):
-        if isinstance(n, ast.If) and isinstance(n.test, ast.Compare) and isinstance(n.test.left, ast.Name) and \
-                isinstance(n.test.ops[0], ast.In) and "pixeltype" in str_consts(n.test):
-            chain = n
-    if chain is None:
-        raise AnalysisError(f"{rel}: Grid.from_stream: parser type-selection chain not found")
-    var = chain.test.left.id
-
-    def parse_kind(key):
-        node = chain
-        while True:
-            t = eval_key_test(node.test, key, var)
-            if t is None:
-                return None
-            if t:
-                body = node.body
-                break
-            if len(node.orelse) == 1 and isinstance(node.orelse[0], ast.If):
-                node = node.orelse[0]
+    def parse_kind(key_written):
+        """(kind, destination) of the value stored for a header line whose first token is `key_written`"""
+        bind = dict(BASE)
+        bind[TOK] = pfold.lit(key_written)
+        out = set()
+        for p_, e in hstores:
+            if not pfold.live(p_, bind):
                 continue
-            body = node.orelse
-            break
-        txt = " ".join(ast.unparse(s) for s in body)
-        if "int(" in txt:
-            return "int"
-        if "float(" in txt:
-            return "float"
-        return "str"
+            if any(pfold.truth(c, bind) is (not t) for c, t in e.conds):
+                continue
+            kf = pfold.fold(e.key, bind)
+            if not pfold.is_lit(kf):
+                return None
+            v = e.val
+            has = lambda nm: bool(pq.find(v, lambda x: pq.call_named(x, nm)))
+            kind = "int" if has("py.int") else "float" if has("py.float") else ("str" if has(".lower") else "rawstr")
+            out.add((kind, e.target, kf[1]))
+        return out
     want_kind = {"nrows": "int", "ncols": "int", "nbits": "int", "xllcorner": "float", "yllcorner": "float", "cellsize": "float",
                  "nodata": "float", "pixeltype": "str", "byteorder": "str", "name": "str", "comment": "str",
                  "parentgrid_nrows": "int", "parentgrid_ncols": "int"}
     for k in sorted(written):
-        got = parse_kind(k)
-        if k in want_kind:
-            if got is None:
-                rep.undecided("R13.a", rel, "Grid.from_stream", f"parsing of key '{k}'", "guard outside vocabulary", line=chain.lineno)
-            else:
-                rep.check(got == want_kind[k], "R13.a", rel, "Grid.from_stream", f"key '{k}' parsed as {want_kind[k]}",
-                          f"parsed as {got}", line=chain.lineno)
+        got = parse_kind(k.upper())
+        if k not in want_kind:
+            continue
+        if not got or len(got) != 1:
+            rep.undecided("R13.a", rel, "Grid.from_stream", f"parsing of key '{k}'", f"{0 if not got else len(got)} live stores", line=fs.lineno)
+            continue
+        kind, dest, stored_key = next(iter(got))
+        rep.check(kind == want_kind[k] and stored_key == k and (dest == "parent_config") == k.startswith("parent"), "R13.a", rel, "Grid.from_stream",
+                  f"key '{k}' parsed as {want_kind[k]}", f"parsed as {kind}, stored under '{stored_key}' in {dest}", line=fs.lineno)
 
-    # ---------------- dtype vocabulary --------------------------------------------------------------------------------
-    # writer: numpy type name -> PIXELTYPE word
-    wvocab = {}
-    for n in ast.walk(save):
-        if isinstance(n, ast.If) and isinstance(n.test, ast.Compare) and isinstance(n.test.left, ast.Name) and \
-                isinstance(n.test.ops[0], ast.Eq) and isinstance(n.test.comparators[0], ast.Constant):
-            for st in n.body:
-                if isinstance(st, ast.Assign) and isinstance(st.targets[0], ast.Name) and st.targets[0].id == "pixeltype" \
-                        and isinstance(st.value, ast.Constant):
-                    wvocab[n.test.comparators[0].value] = st.value.value
-    rep.floor("pixel type words written", len(wvocab), 3)
-    # reader regular expression
-    rx = None
-    for n in ast.walk(fs):
-        if isinstance(n, ast.Call) and dotted(n.func) == "re.sub" and len(n.args) == 3 and "pixeltype" in ast.unparse(n.args[2]):
-            if isinstance(n.args[0], ast.Constant) and isinstance(n.args[1], ast.Constant):
-                rx = (n.args[0].value, n.args[1].value, n.lineno)
-    if rx is None:
-        raise AnalysisError(f"{rel}: Grid.from_stream: pixel type regular expression not found")
+    # ---------------- dtype vocabulary: writer scenarios pushed through the reader ------------------------------------------
+    # writer: the expression naming the type family (compared with 'int' / 'uint' / 'float') and the byte-order character
+    fam = None
+    for p_ in wpe.paths:
+        for c, t in p_.conds:
+            if c[0] == 'cmp' and c[1] == '==' and pfold.is_lit(pfold.fold(c[3], {})) and pfold.fold(c[3], {})[1] in ("int", "uint", "float"):
+                fam = c[2]
+    lines0 = scen_lines[0][1]
+    if fam is None:
+        # a table lookup instead of a comparison chain: the family expression is the subscript of the PIXELTYPE value
+        for key, val, *_r in lines0:
+            if key == "PIXELTYPE":
+                cands = pq.find(val, lambda x: pq.call_named(x, ".sub") and x[2][0] == ('sym', 're'))
+                fam = cands[0] if cands else None
+    if fam is None:
+        raise AnalysisError(f"{rel}: Grid.save: expression selecting the pixel type word not recognised")
+    BOX = pq.find(('tuple', tuple(v for _k, v, *_r in lines0 if _k == "BYTEORDER")), lambda x: pq.call_named(x, "attr:byteorder"))
     kind_code = {"int": "i", "uint": "u", "float": "f"}
-    for tname, word in sorted(wvocab.items()):
-        got = re.sub(rx[0], rx[1], word.lower())
-        rep.check(got == kind_code.get(tname), "R13.a", rel, "Grid.from_stream", f"pixel type '{word.upper()}' ({tname}) decoded",
-                  f"re.sub({rx[0]!r}, {rx[1]!r}, {word.lower()!r}) = {got!r}, numpy kind code for {tname} is {kind_code.get(tname)!r}", line=rx[2])
+    CONFIGS = set()
+    for p_ in rpaths:
+        for c, _t in p_.conds:
+            for x in pq.find(c, lambda y: pq.call_named(y, "getitem") and y[2][0][0] == 'sym' and y[2][0][1].startswith("config") and pfold.is_lit(pfold.fold(y[2][1], {}))):
+                CONFIGS.add(x[2][0])
+        for e in p_.effects:
+            for x in pq.find(e.val, lambda y: pq.call_named(y, "getitem") and y[2][0][0] == 'sym' and y[2][0][1].startswith("config") and pfold.is_lit(pfold.fold(y[2][1], {}))) if e.val else []:
+                CONFIGS.add(x[2][0])
+
+    def cfg(bind, key, value):
+        for c_ in CONFIGS:
+            bind[('call', 'getitem', (c_, ('sym', repr(key))))] = value
+    nvoc = 0
+    for tname in ("int", "uint", "float"):
+        for bo in (">", "<", "="):
+            wb_ = dict(BASE)
+            wb_[fam] = pfold.lit(tname)
+            for x in BOX:
+                wb_[x] = pfold.lit(bo)
+            live_w = [(p_, ls_) for p_, ls_ in scen_lines if pfold.live(p_, wb_)]
+            if len(live_w) != 1:
+                rep.undecided("R13.a", rel, "Grid.save", f"{tname} / byte order '{bo}': header written", f"{len(live_w)} live writer paths", line=save.lineno)
+                continue
+            vals = {k_: pfold.fold(v_, wb_) for k_, v_, *_r in live_w[0][1]}
+            word, letter, nbw = vals.get("PIXELTYPE"), vals.get("BYTEORDER"), vals.get("NBITS")
+            if not (word and letter and pfold.is_lit(word) and pfold.is_lit(letter)):
+                rep.undecided("R13.a", rel, "Grid.save", f"{tname} / byte order '{bo}': PIXELTYPE and BYTEORDER words", f"{pfold.text(word) if word else None}, {pfold.text(letter) if letter else None}", line=save.lineno)
+                continue
+            # reader: values arrive lower-cased (kind 'str' checked above)
+            rb_ = dict(BASE)
+            cfg(rb_, "pixeltype", pfold.lit(str(word[1]).lower()))
+            cfg(rb_, "byteorder", pfold.lit(str(letter[1]).lower()))
+            live_r = [p_ for p_ in rpaths if p_.how == "return" and pfold.live(p_, rb_)]
+            raised = [p_ for p_ in rpaths if p_.how == "raise" and pfold.live(p_, rb_) and all(pfold.truth(c, rb_) is not None for c, _t in p_.conds)]
+            dts = set()
+            for p_ in live_r:
+                for e in p_.effects:
+                    if e.kind == 'store' and e.target == "config" and pfold.fold(e.key, {}) == pfold.lit("dtype"):
+                        dt = pq.find(e.val, lambda x: pq.call_named(x, "dtype") and len(x[2]) >= 1)
+                        if dt:
+                            parts = _concat(pfold.fold(dt[0][2][0], rb_))
+                            dts.add(tuple(parts))
+            nvoc += 1
+            cons = f"{tname} / byte order '{bo}': PIXELTYPE {word[1]} BYTEORDER {letter[1]} rebuilds the dtype"
+            want_bo = ">" if bo == ">" else "<"
+            if not dts:
+                if raised and not live_r:
+                    rep.violation("R13.a", rel, "Grid.from_stream", cons, f"the reader rejects these words ({len(raised)} path(s) raise, none returns)", line=fs.lineno)
+                else:
+                    rep.undecided("R13.a", rel, "Grid.from_stream", cons, "no dtype construction found on the live paths", line=fs.lineno)
+                continue
+            okd = True
+            det = ""
+            for parts in dts:
+                head = "".join(str(x[1]) for x in parts if pfold.is_lit(x))
+                rest = [x for x in parts if not pfold.is_lit(x)]
+                if head != want_bo + kind_code[tname]:
+                    okd, det = False, f"dtype string starts with {head!r}, numpy code is {want_bo + kind_code[tname]!r}"
+                if len(rest) != 1 or not _is_itemsize(rest[0], nbw, CONFIGS):
+                    okd, det = False, det or f"item size part `{_show(rest[0])[:60] if rest else None}` does not undo NBITS = {pfold.text(nbw) if nbw else None}"
+            rep.check(okd, "R13.a", rel, "Grid.from_stream", cons, det, line=fs.lineno)
+    rep.floor("dtype scenarios pushed through writer and reader", nvoc, 9)
     # PIXELTYPE value is written upper-cased and lower-cased by the reader
     ptw = written.get("pixeltype", ("", "", 0))[0]
-    rep.check("pixeltype" in ptw, "R13.a", rel, "Grid.save", "PIXELTYPE line holds the pixel type word", ptw, line=save.lineno)
-    # nbits: writer itemsize*8, reader //8
-    wn = [n for n in ast.walk(save) if isinstance(n, ast.Assign) and isinstance(n.targets[0], ast.Name) and n.targets[0].id == "nbits"]
-    rn = [n for n in ast.walk(fs) if isinstance(n, ast.Assign) and isinstance(n.targets[0], ast.Name) and n.targets[0].id == "nbits"]
-    okw = bool(wn) and ast.unparse(wn[0].value).replace(" ", "") in ("ddtype.itemsize*8", "8*ddtype.itemsize")
-    okr = bool(rn) and ast.unparse(rn[0].value).replace(" ", "") in ("config['nbits']//8", "int(config['nbits']/8)", "config['nbits']//8")
-    rep.check(okw, "R13.a", rel, "Grid.save", "NBITS = itemsize * 8", ast.unparse(wn[0].value) if wn else "not found", line=save.lineno)
-    rep.check(okr, "R13.a", rel, "Grid.from_stream", "itemsize = NBITS // 8", ast.unparse(rn[0].value) if rn else "not found", line=fs.lineno)
-    # byte order letters
-    wb = {}
-    for n in ast.walk(save):
-        if isinstance(n, ast.If) and "byteorder" in ast.unparse(n.test) and isinstance(n.test, ast.Compare) and \
-                isinstance(n.test.comparators[0], ast.Constant):
-            sym = n.test.comparators[0].value
-            b1 = [st.value.value for st in n.body if isinstance(st, ast.Assign) and isinstance(st.value, ast.Constant)]
-            b2 = [st.value.value for st in n.orelse if isinstance(st, ast.Assign) and isinstance(st.value, ast.Constant)]
-            if b1 and b2:
-                wb = {sym: b1[0], ("<" if sym == ">" else ">"): b2[0]}
-    rb = {}
-    for n in ast.walk(fs):
-        if isinstance(n, ast.If) and isinstance(n.test, ast.Compare) and "byteorder" in ast.unparse(n.test.left) and \
-                isinstance(n.test.comparators[0], ast.Constant):
-            for st in n.body:
-                if isinstance(st, ast.Assign) and isinstance(st.value, ast.Constant) and isinstance(st.targets[0], ast.Name) and st.targets[0].id == "byteorder":
-                    rb[n.test.comparators[0].value] = st.value.value
-    for sym, letter in sorted(wb.items()):
-        got = rb.get(letter.lower())
-        rep.check(got == sym, "R13.a", rel, "Grid.from_stream", f"byte order letter '{letter}' decoded as '{sym}'",
-                  f"reader maps '{letter.lower()}' to {got!r}", line=fs.lineno)
-    rep.floor("byte order letters", len(wb), 2)
 
     # ---------------- R13.d raw data ---------------------------------------------------------------------------------------
     tof = [n for n in ast.walk(save) if isinstance(n, ast.Call) and isinstance(n.func, ast.Attribute) and n.func.attr == "tofile"]
